@@ -15,6 +15,7 @@ tier: 'quick' harnesses run in both tiers, 'thorough' only in the thorough tier.
 CATALOG = []
 
 
+
 class H:
     def __init__(self, prop, name, call, unwind, tier="quick", kind="pass", stubs=(), also=(), note=""):
         self.prop = prop
@@ -48,19 +49,482 @@ COLWIN4 = [(1, 3), (0, 4), (0, 1), (3, 4), (2, 2), (4, 4)]
 def c08():
     for (sc, ec) in COLWIN4:
         q = "quick" if (sc, ec) in [(1, 3), (0, 4), (3, 4), (4, 4)] else "thorough"
-        add("C08", f"c08_rows_view_c{sc}_{ec}_d3", f"c08::rows_view(4, 4, {sc}, {ec}, 3)", 6, q)
-        add("C08", f"c08_rowsmut_viewmut_c{sc}_{ec}_d2", f"c08::rowsmut_viewmut(4, 4, {sc}, {ec}, 2)", 6, q)
-        add("C08", f"c08_rows_viewmut_c{sc}_{ec}_d3", f"c08::rows_viewmut(4, 4, {sc}, {ec}, 3)", 6, "thorough")
-        add("C08", f"c08_rows_view_c{sc}_{ec}_d4", f"c08::rows_view(4, 4, {sc}, {ec}, 4)", 6, "thorough")
-        add("C08", f"c08_rowsmut_viewmut_c{sc}_{ec}_d3", f"c08::rowsmut_viewmut(4, 4, {sc}, {ec}, 3)", 6, "thorough")
+        w = f"c{sc}_{ec}"
+        add("C08", f"c08_rows_view_{w}_d3", f"c08::rows_view(4, 4, {sc}, {ec}, 3, 0)", 6, q)
+        add("C08", f"c08_rows_view_{w}_d1x", f"c08::rows_view(4, 4, {sc}, {ec}, 1, 1)", 6, q)
+        add("C08", f"c08_rowsmut_viewmut_{w}_d2", f"c08::rowsmut_viewmut(4, 4, {sc}, {ec}, 2, 0)", 6, q)
+        add("C08", f"c08_rowsmut_viewmut_{w}_d1x", f"c08::rowsmut_viewmut(4, 4, {sc}, {ec}, 1, 1)", 6, q)
+        add("C08", f"c08_rows_viewmut_{w}_d3", f"c08::rows_viewmut(4, 4, {sc}, {ec}, 3, 0)", 6, "thorough")
+        add("C08", f"c08_rows_view_{w}_d4", f"c08::rows_view(4, 4, {sc}, {ec}, 4, 0)", 6, "thorough")
+        add("C08", f"c08_rows_view_{w}_d2x", f"c08::rows_view(4, 4, {sc}, {ec}, 2, 1)", 6, "thorough")
+        add("C08", f"c08_rowsmut_viewmut_{w}_d3", f"c08::rowsmut_viewmut(4, 4, {sc}, {ec}, 3, 0)", 6, "thorough")
+        add("C08", f"c08_rowsmut_viewmut_{w}_d2x", f"c08::rowsmut_viewmut(4, 4, {sc}, {ec}, 2, 1)", 6, "thorough")
+    add("C08", "c08_rowsmut_viewmut_c1_3_d1_poke", "c08::rowsmut_viewmut(4, 4, 1, 3, 1, 2)", 6, "quick", also=["C04"])
+    add("C08", "c08_rowsmut_owned_2x3_d1_poke", "c08::rowsmut_owned(2, 3, 1, 2)", 6, "quick")
+    add("C08", "c08_rowsmut_viewmut_c1_3_d1x_poke", "c08::rowsmut_viewmut(4, 4, 1, 3, 1, 3)", 6, "thorough", also=["C04"])
     for (c, r) in [(0, 0), (1, 1), (1, 3), (3, 1), (2, 3), (3, 3)]:
         q = "quick" if (c, r) in [(0, 0), (1, 3), (2, 3)] else "thorough"
-        add("C08", f"c08_rows_owned_{c}x{r}_d3", f"c08::rows_owned({c}, {r}, 3)", 6, q)
-        add("C08", f"c08_rowsmut_owned_{c}x{r}_d2", f"c08::rowsmut_owned({c}, {r}, 2)", 6, q)
-        add("C08", f"c08_rowsmut_owned_{c}x{r}_d3", f"c08::rowsmut_owned({c}, {r}, 3)", 6, "thorough")
+        add("C08", f"c08_rows_owned_{c}x{r}_d3", f"c08::rows_owned({c}, {r}, 3, 0)", 6, q)
+        add("C08", f"c08_rowsmut_owned_{c}x{r}_d2", f"c08::rowsmut_owned({c}, {r}, 2, 0)", 6, q)
+        add("C08", f"c08_rowsmut_owned_{c}x{r}_d1x", f"c08::rowsmut_owned({c}, {r}, 1, 1)", 6, q)
+        add("C08", f"c08_rowsmut_owned_{c}x{r}_d3", f"c08::rowsmut_owned({c}, {r}, 3, 0)", 6, "thorough")
+        add("C08", f"c08_rows_owned_{c}x{r}_d2x", f"c08::rows_owned({c}, {r}, 2, 1)", 6, "thorough")
 
 
 c08()
+
+
+# ---------------------------------------------------------------------------------------
+# C09 col / col_mut : window fully symbolic (the column stride is the concrete parent width)
+def c09():
+    for (pc, pr) in [(4, 4), (1, 4), (3, 3)]:
+        q = "quick" if (pc, pr) in [(4, 4), (1, 4)] else "thorough"
+        p = f"{pc}x{pr}"
+        add("C09", f"c09_col_view_{p}_d3", f"c09::col_view({pc}, {pr}, 3, 0)", 6, q)
+        add("C09", f"c09_col_view_{p}_d1x", f"c09::col_view({pc}, {pr}, 1, 1)", 6, q)
+        add("C09", f"c09_colmut_viewmut_{p}_d2", f"c09::colmut_viewmut({pc}, {pr}, 2, 0)", 6, q)
+        add("C09", f"c09_colmut_viewmut_{p}_d1x", f"c09::colmut_viewmut({pc}, {pr}, 1, 1)", 6, q)
+        add("C09", f"c09_col_viewmut_{p}_d3", f"c09::col_viewmut({pc}, {pr}, 3, 0)", 6, "thorough")
+        add("C09", f"c09_col_view_{p}_d4", f"c09::col_view({pc}, {pr}, 4, 0)", 6, "thorough")
+        add("C09", f"c09_colmut_viewmut_{p}_d3", f"c09::colmut_viewmut({pc}, {pr}, 3, 0)", 6, "thorough")
+        add("C09", f"c09_colmut_indexmut_{p}", f"c09::colmut_indexmut_viewmut({pc}, {pr})", 6, q)
+        add("C09", f"c09_col_index_oob_{p}", f"c09::col_index_oob({pc}, {pr}, false)", 6, q, kind="panic")
+        add("C09", f"c09_colmut_index_oob_{p}", f"c09::col_index_oob({pc}, {pr}, true)", 6, q, kind="panic")
+        for recv in (0, 1, 2):
+            add("C09", f"c09_col_oob_r{recv}_{p}", f"c09::col_oob({recv}, {pc}, {pr})", 6, q if pc == 4 else "thorough", kind="panic")
+    add("C09", "c09_colmut_viewmut_4x4_d1_poke", "c09::colmut_viewmut(4, 4, 1, 2)", 6, "quick", also=["C04"])
+    add("C09", "c09_colmut_owned_2x3_d1_poke", "c09::colmut_owned(2, 3, 1, 2)", 6, "quick")
+    add("C09", "c09_colmut_viewmut_4x4_d1x_poke", "c09::colmut_viewmut(4, 4, 1, 3)", 6, "thorough", also=["C04"])
+    for (c, r) in [(1, 1), (1, 3), (3, 1), (2, 3), (3, 3)]:
+        q = "quick" if (c, r) in [(1, 3), (2, 3)] else "thorough"
+        add("C09", f"c09_col_owned_{c}x{r}_d3", f"c09::col_owned({c}, {r}, 3, 0)", 6, q)
+        add("C09", f"c09_colmut_owned_{c}x{r}_d2", f"c09::colmut_owned({c}, {r}, 2, 0)", 6, q)
+        add("C09", f"c09_colmut_owned_{c}x{r}_d1x", f"c09::colmut_owned({c}, {r}, 1, 1)", 6, q)
+        add("C09", f"c09_colmut_owned_{c}x{r}_d3", f"c09::colmut_owned({c}, {r}, 3, 0)", 6, "thorough")
+
+
+c09()
+
+
+# ---------------------------------------------------------------------------------------
+# C10 cells / cells_mut : column window concrete (FlattenExact divides by the width),
+# parent 4 wide x 3 high so that a window holds at most 12 cells; prefix = partially
+# consumed front/back rows.
+def c10():
+    for (sc, ec) in [(1, 3), (0, 4), (3, 4), (0, 3), (2, 2), (4, 4)]:
+        w = f"c{sc}_{ec}"
+        main = (sc, ec) in [(1, 3), (0, 4)]
+        for prefix in (0, 1, 2, 3):
+            q = "quick" if (main and prefix in (0, 3)) or ((sc, ec) == (3, 4) and prefix == 3) else "thorough"
+            add("C10", f"c10_cells_view_{w}_p{prefix}_d2", f"c10::cells_view(4, 3, {sc}, {ec}, {prefix}, 2, 0, 0)", 6, q)
+            add("C10", f"c10_cellsmut_viewmut_{w}_p{prefix}_d2", f"c10::cells_viewmut(4, 3, {sc}, {ec}, {prefix}, 2, 0, 0)", 6, q)
+            add("C10", f"c10_cells_view_{w}_p{prefix}_d3", f"c10::cells_view(4, 3, {sc}, {ec}, {prefix}, 3, 0, 0)", 6, "thorough")
+        # exhaustive iteration after one step: keep the cell count small (2-row parent for wide windows)
+        q = "quick" if (sc, ec) in [(1, 3), (4, 4)] else "thorough"
+        pr = 3 if ec - sc <= 2 else 2
+        un = (ec - sc) * pr + 3
+        add("C10", f"c10_cells_view_{w}_p3_d1x", f"c10::cells_view(4, {pr}, {sc}, {ec}, 3, 1, 1, 0)", un, q)
+        add("C10", f"c10_cellsmut_viewmut_{w}_p0_d1x", f"c10::cells_viewmut(4, {pr}, {sc}, {ec}, 0, 1, 1, 0)", un, q)
+    add("C10", "c10_cellsmut_viewmut_c1_3_p0_d1_poke", "c10::cells_viewmut(4, 3, 1, 3, 0, 1, 2, 0)", 6, "quick", also=["C04"])
+    add("C10", "c10_cellsmut_owned_2x2_p3_d1_poke", "c10::cells_owned(2, 2, 3, 1, 2, 2)", 6, "quick")
+    # IntoIterator forms
+    add("C10", "c10_intoiter_ref_view", "c10::cells_view(4, 3, 1, 3, 1, 1, 0, 1)", 6, "quick")
+    add("C10", "c10_intoiter_mut_viewmut", "c10::cells_viewmut(4, 3, 1, 3, 2, 1, 0, 1)", 6, "quick")
+    add("C10", "c10_cells_of_viewmut", "c10::cells_viewmut(4, 3, 1, 3, 3, 1, 0, 2)", 6, "quick")
+    add("C10", "c10_intoiter_ref_viewmut", "c10::cells_viewmut(4, 3, 1, 3, 0, 1, 0, 3)", 6, "quick")
+    for (c, r) in [(0, 0), (1, 3), (3, 1), (2, 3), (3, 3)]:
+        q = "quick" if (c, r) in [(0, 0), (2, 3)] else "thorough"
+        for via in (0, 1, 2, 3):
+            add("C10", f"c10_cells_owned_{c}x{r}_v{via}_d2", f"c10::cells_owned({c}, {r}, 3, 2, 0, {via})", 6, q if via in (0, 2) else "thorough")
+        add("C10", f"c10_cells_owned_{c}x{r}_v1_d1", f"c10::cells_owned({c}, {r}, 0, 1, 0, 1)", 6, q)
+        add("C10", f"c10_cells_owned_{c}x{r}_v3_d1x", f"c10::cells_owned({c}, {r}, 1, 1, 1, 3)", c * r + 3, q if c * r <= 6 else "thorough")
+
+
+c10()
+
+
+# ---------------------------------------------------------------------------------------
+# C13 swap family / fill / row_pair_mut / IndexMut, three implementors; kind-1 also serves C04
+C13_OPS = {0: "fill", 1: "swap", 2: "swap_rows", 3: "swap_cols", 4: "row_pair", 5: "indexmut"}
+
+
+def c13():
+    for which, nm in C13_OPS.items():
+        for (c, r) in [(2, 3), (3, 2), (1, 1), (1, 3), (3, 1), (3, 3), (0, 0)]:
+            if (c, r) == (0, 0) and which != 0:
+                continue
+            q = "quick" if (c, r) in [(2, 3), (3, 2)] else "thorough"
+            add("C13", f"c13_{nm}_owned_{c}x{r}", f"c13::inrange({which}, 0, {c}, {r})", 6, q, also=["C01"])
+        add("C13", f"c13_{nm}_viewmut_4x4", f"c13::inrange({which}, 1, 4, 4)", 6, "quick", also=["C04"])
+        add("C13", f"c13_{nm}_mini_4x4", f"c13::inrange({which}, 2, 4, 4)", 6, "quick")
+        add("C13", f"c13_{nm}_viewmut_3x3", f"c13::inrange({which}, 1, 3, 3)", 6, "thorough", also=["C04"])
+        add("C13", f"c13_{nm}_mini_3x3", f"c13::inrange({which}, 2, 3, 3)", 6, "thorough")
+        if which == 0:
+            continue
+        for (c, r) in [(2, 3), (3, 3), (1, 1), (0, 0)]:
+            q = "quick" if (c, r) == (2, 3) else "thorough"
+            add("C13", f"c13_{nm}_rejected_owned_{c}x{r}", f"c13::rejected({which}, 0, {c}, {r})", 6, q, kind="panic", also=["C01"])
+        add("C13", f"c13_{nm}_rejected_viewmut_4x4", f"c13::rejected({which}, 1, 4, 4)", 6, "quick", kind="panic")
+        add("C13", f"c13_{nm}_rejected_mini_4x4", f"c13::rejected({which}, 2, 4, 4)", 6, "quick", kind="panic")
+
+
+c13()
+
+
+# ---------------------------------------------------------------------------------------
+# C02 access
+def c02():
+    add("C02", "c02_inrange_view_4x4", "c02::inrange_view(4, 4)", 4)
+    add("C02", "c02_inrange_viewmut_4x4", "c02::inrange_viewmut(4, 4)", 4, also=["C04"])
+    add("C02", "c02_inrange_view_3x5", "c02::inrange_view(3, 5)", 4, "thorough")
+    add("C02", "c02_inrange_viewmut_5x3", "c02::inrange_viewmut(5, 3)", 4, "thorough")
+    add("C02", "c02_inrange_view_1x4", "c02::inrange_view(1, 4)", 4, "thorough")
+    for (c, r) in [(1, 1), (1, 3), (3, 1), (2, 3), (3, 2), (3, 3), (4, 4), (2, 2)]:
+        q = "quick" if (c, r) in [(1, 1), (2, 3), (3, 2), (3, 3)] else "thorough"
+        add("C02", f"c02_inrange_owned_{c}x{r}", f"c02::inrange_owned({c}, {r})", 4, q)
+    add("C02", "c02_oob_view_4x4", "c02::oob(0, 4, 4)", 4, kind="panic")
+    add("C02", "c02_oob_viewmut_4x4", "c02::oob(1, 4, 4)", 4, kind="panic")
+    for (c, r) in [(0, 0), (1, 1), (2, 3), (3, 3), (3, 1), (1, 3), (4, 4)]:
+        q = "quick" if (c, r) in [(0, 0), (2, 3), (1, 1)] else "thorough"
+        add("C02", f"c02_oob_owned_{c}x{r}", f"c02::oob(2, {c}, {r})", 4, q, kind="panic")
+    add("C02", "c02_oob_view_3x5", "c02::oob(0, 3, 5)", 4, "thorough", kind="panic")
+    add("C02", "c02_oob_viewmut_5x3", "c02::oob(1, 5, 3)", 4, "thorough", kind="panic")
+
+
+c02()
+
+
+# ---------------------------------------------------------------------------------------
+# C03 views
+def c03():
+    for root, nm in ((0, "slice"), (1, "owned"), (2, "mutslice")):
+        for depth in (1, 2, 3):
+            q = "quick" if depth <= 2 or root == 0 else "thorough"
+            add("C03", f"c03_nested_view_{nm}_4x4_d{depth}", f"c03::nested_view({root}, 4, 4, {depth})", 4, q)
+        add("C03", f"c03_nested_view_{nm}_3x5_d2", f"c03::nested_view({root}, 3, 5, 2)", 4, "thorough")
+    for root, nm in ((1, "owned"), (2, "mutslice")):
+        for depth in (1, 2, 3):
+            for last in (0, 1):
+                q = "quick" if (depth <= 2 and last == 0) or (depth == 2 and last == 1 and root == 2) else "thorough"
+                add("C03", f"c03_nested_viewmut_{nm}_4x4_d{depth}_l{last}", f"c03::nested_view_mut({root}, 4, 4, {depth}, {last})", 4, q, also=["C04"] if q == "quick" else [])
+    for (c, r) in [(0, 0), (1, 1), (2, 3), (4, 4), (3, 2), (1, 5)]:
+        q = "quick" if (c, r) in [(0, 0), (2, 3), (4, 4)] else "thorough"
+        add("C03", f"c03_over_slice_{c}x{r}", f"c03::over_slice({c}, {r}, false)", 4, q)
+        add("C03", f"c03_over_mutslice_{c}x{r}", f"c03::over_slice({c}, {r}, true)", 4, q)
+    for (c, r) in [(4, 4), (0, 0), (3, 3), (1, 4)]:
+        q = "quick" if (c, r) in [(4, 4), (0, 0)] else "thorough"
+        add("C03", f"c03_invalid_{c}x{r}", f"c03::invalid({c}, {r})", 4, q, kind="panic")
+
+
+c03()
+
+
+# ---------------------------------------------------------------------------------------
+# Owned-array structural operations. Shape grid G(3) = {(0,0)} U {1..3}^2.
+G3 = [(1, 1), (1, 2), (1, 3), (2, 1), (2, 2), (2, 3), (3, 1), (3, 2), (3, 3)]
+G3Q = [(1, 1), (2, 3), (3, 2), (1, 3)]          # quick subset: 1x1, non-square both ways, single column
+MODES = {0: "insert_row", 1: "push_row", 2: "insert_col", 3: "push_col"}
+RMODES = {0: "remove_row", 1: "pop_row", 2: "remove_col", 3: "pop_col"}
+
+
+def b(x):
+    return "true" if x else "false"
+
+
+def c06():
+    for (c, r) in G3:
+        for mode, nm in MODES.items():
+            for spare in (False, True):
+                quick = (c, r) in G3Q and mode in (0, 2) and (spare == ((c + r) % 2 == 0))
+                un = c * r + max(c, r) + 3
+                add("C06", f"c06_{nm}_tok_{c}x{r}_{'s' if spare else 'x'}", f"c06::insert_tok({mode}, {c}, {r}, {b(spare)})", un,
+                    "quick" if quick else "thorough", also=["C01", "C05"])
+            quick = (c, r) in [(2, 3), (3, 2)] and mode in (0, 2)
+            add("C06", f"c06_{nm}_u8_{c}x{r}", f"c06::insert_u8({mode}, {c}, {r}, {b((c * r) % 2 == 1)})", 6, "quick" if quick else "thorough", also=["C01"])
+    for mode, nm in MODES.items():
+        for ln in (0, 1, 2, 3):
+            for start in (0, 1, 2):
+                quick = (mode in (0, 2) and ln in (0, 2) and start == 0) or (mode in (1, 3) and ln == 1 and start == 2)
+                add("C06", f"c06_{nm}_into_empty_len{ln}_s{start}", f"c06::insert_into_empty({mode}, {ln}, {start})", 8, "quick" if quick else "thorough", also=["C01", "C05"])
+    for (c, r) in [(2, 2), (1, 1), (3, 2)]:
+        for mode in (0, 2):
+            quick = (c, r) == (2, 2)
+            add("C06", f"c06_{MODES[mode]}_zst_{c}x{r}", f"c06::insert_zst({mode}, {c}, {r})", c * r + 6, "quick" if quick else "thorough", also=["C05"])
+    for (c, r) in [(2, 3), (1, 1), (3, 3)]:
+        for mode in (0, 2):
+            for what in (0, 1):
+                quick = (c, r) == (2, 3)
+                add("C06", f"c06_{MODES[mode]}_rejected_{'idx' if what == 0 else 'len'}_{c}x{r}", f"c06::insert_rejected({mode}, {c}, {r}, {what})", c * r + 6,
+                    "quick" if quick else "thorough", kind="panic", also=["C01"])
+
+
+c06()
+
+
+def c07():
+    for (c, r) in G3:
+        for mode, nm in RMODES.items():
+            un = c * r + max(c, r) + 3
+            quick = (c, r) in G3Q and mode in (0, 2)
+            add("C07", f"c07_{nm}_tok_{c}x{r}", f"c07::remove_tok({mode}, {c}, {r}, {b((c + r) % 2 == 1)}, false, 0)", un, "quick" if quick else "thorough", also=["C01", "C05"])
+            add("C07", f"c07_{nm}_tok_script_{c}x{r}", f"c07::remove_tok({mode}, {c}, {r}, false, true, 0)", un, "thorough", also=["C05"])
+            # leaked drains: C12
+            quick = (c, r) in [(2, 3), (3, 2), (1, 1)] and mode in (0, 2)
+            add("C12", f"c12_leak_{nm}_{c}x{r}", f"c07::remove_tok({mode}, {c}, {r}, false, false, 1)", un, "quick" if quick else "thorough")
+        for is_row in (True, False):
+            quick = (c, r) in [(2, 3), (1, 1)]
+            add("C07", f"c07_remove_{'row' if is_row else 'col'}_u8_{c}x{r}", f"c07::remove_u8({b(is_row)}, {c}, {r})", 6, "quick" if quick else "thorough", also=["C01"])
+    add("C07", "c07_pop_empty", "c07::pop_empty()", 4, also=["C01"])
+    for (c, r) in [(2, 3), (1, 1), (0, 0)]:
+        for is_row in (True, False):
+            add("C07", f"c07_remove_{'row' if is_row else 'col'}_rejected_{c}x{r}", f"c07::remove_rejected({b(is_row)}, {c}, {r})", c * r + 4,
+                "quick" if (c, r) != (1, 1) else "thorough", kind="panic", also=["C01"])
+    for (c, r) in [(2, 2), (3, 1)]:
+        for is_row in (True, False):
+            add("C07", f"c07_remove_{'row' if is_row else 'col'}_zst_{c}x{r}", f"c07::remove_zst({b(is_row)}, {c}, {r})", c * r + 6,
+                "quick" if (c, r) == (2, 2) else "thorough", also=["C05"])
+
+
+c07()
+
+
+def c05():
+    names = {0: "clear", 1: "fill", 2: "into_iter", 3: "into_vec", 4: "into_box", 5: "clone", 6: "from_view", 7: "from_viewmut", 8: "overwrite", 9: "drop", 10: "view_fill"}
+    for op, nm in names.items():
+        for (c, r) in [(2, 2), (2, 3), (3, 3), (1, 1), (0, 0)]:
+            if (c, r) == (0, 0) and op in (6, 7, 10):
+                continue
+            quick = (c, r) == (2, 2) or ((c, r) == (2, 3) and op in (2, 6, 10))
+            add("C05", f"c05_{nm}_{c}x{r}", f"c05::lifecycle({op}, {c}, {r})", c * r + 4, "quick" if quick else "thorough", also=["C01"] if op in (0, 1, 8, 10) else [])
+    for op, nm in ((0, "new"), (1, "init")):
+        for (c, r) in [(2, 2), (0, 0), (3, 2)]:
+            add("C05", f"c05_{nm}_{c}x{r}", f"c05::construct({op}, {c}, {r})", c * r + 4, "quick" if (c, r) != (3, 2) else "thorough", also=["C20"])
+    pn = {0: "swap", 1: "swap_rows", 2: "swap_cols", 3: "sort_by_row", 4: "sort_by_col", 5: "translate", 6: "flip_rows", 7: "flip_cols", 8: "sort_unstable_by_row", 9: "sort_unstable_by_col"}
+    for op, nm in pn.items():
+        for (c, r) in [(2, 2), (3, 2), (2, 3)]:
+            stubs = [ROTATE_STUB_TOK] if op == 5 else []
+            add("C05", f"c05_permute_{nm}_{c}x{r}", f"c05::permute({op}, {c}, {r})", c * r + 4, "quick" if (c, r) == (2, 2) else "thorough", stubs=stubs)
+    for op, nm in ((0, "clone_from_slice"), (1, "clone_from_toodee"), (2, "view_clone_from_slice")):
+        for (c, r) in [(2, 2), (2, 3)]:
+            add("C05", f"c05_{nm}_{c}x{r}", f"c05::clone_into({op}, {c}, {r})", c * r + 4, "quick" if (c, r) == (2, 2) else "thorough")
+
+
+ROTATE_STUB = ("<[u8]>::rotate_left", "crate::stubs::rotate_left_naive")
+ROTATE_STUB_TOK = ("<[crate::tok::Tok]>::rotate_left", "crate::stubs::rotate_left_naive")
+c05()
+
+
+def c12():
+    names = {0: "rows", 1: "rows_mut", 2: "col", 3: "col_mut", 4: "cells", 5: "cells_mut", 6: "view", 7: "view_mut", 8: "into_iter"}
+    for what, nm in names.items():
+        add("C12", f"c12_leak_{nm}_2x2", f"c12::leak_borrow({what}, 2, 2)", 10, "quick")
+        add("C12", f"c12_leak_{nm}_2x3", f"c12::leak_borrow({what}, 2, 3)", 12, "thorough")
+
+
+c12()
+
+
+def c11():
+    for (c, r) in G3:
+        for mode in (0, 2):
+            for spare in (False, True):
+                quick = (c, r) in [(2, 2), (2, 3), (1, 1)] and spare == (mode == 0)
+                add("C11", f"c11_crash_{MODES[mode]}_{c}x{r}_{'s' if spare else 'x'}", f"c11::crash_insert({mode}, {c}, {r}, {b(spare)})", c * r + max(c, r) + 4, "quick" if quick else "thorough")
+    for mode in (0, 2):
+        for have in (0, 1, 2):
+            add("C11", f"c11_lying_{MODES[mode]}_empty_have{have}", f"c11::lying_insert_empty({mode}, {have})", 8, "quick" if have != 1 else "thorough",
+                stubs=[CAPOVF_STUB])
+    cn = {0: "fill", 1: "view_fill", 2: "clone_from_slice", 3: "clone_from_toodee", 4: "clone", 5: "from_view"}
+    for op, nm in cn.items():
+        for (c, r) in [(2, 2), (2, 3)]:
+            add("C11", f"c11_crash_{nm}_{c}x{r}", f"c11::crash_clone({op}, {c}, {r})", c * r + 5, "quick" if (c, r) == (2, 2) else "thorough")
+    sn = {0: "sort_by_row", 1: "sort_unstable_by_row", 2: "sort_by_row_key", 3: "sort_by_col", 4: "sort_unstable_by_col", 5: "sort_by_col_key"}
+    for op, nm in sn.items():
+        for (c, r) in [(3, 2), (2, 3)]:
+            add("C11", f"c11_crash_{nm}_{c}x{r}", f"c11::crash_sort({op}, {c}, {r})", c * r + 5, "quick" if (c, r) == (3, 2) and op in (0, 3, 5) else "thorough")
+    for op, nm in ((0, "new"), (1, "init")):
+        add("C11", f"c11_crash_{nm}_2x2", f"c11::crash_construct({op}, 2, 2)", 8, "quick")
+
+
+CAPOVF_STUB = ("alloc::raw_vec::capacity_overflow", "crate::stubs::capacity_overflow_observed")
+c11()
+
+
+def c01():
+    names = {0: "swap_dimensions", 1: "reserve", 2: "reserve_exact", 3: "shrink_to_fit", 4: "data_mut", 5: "as_mut", 6: "clear", 7: "as_ref"}
+    for op, nm in names.items():
+        for (c, r) in [(2, 3), (0, 0), (1, 1), (3, 3)]:
+            quick = (c, r) in [(2, 3), (0, 0)] and op in (0, 1, 3, 6)
+            add("C01", f"c01_{nm}_{c}x{r}", f"c01::inv_only({op}, {c}, {r}, {b(op % 2 == 0)})", 6, "quick" if quick else "thorough")
+    add("C01", "c01_history_regrow_3", "c01::history(0, 3, 1)", 8)
+    add("C01", "c01_history_regrow_1", "c01::history(0, 1, 1)", 8, "thorough")
+    add("C01", "c01_history_empty_cycle", "c01::history(1, 0, 0)", 8)
+    add("C01", "c01_history_popcols_2x2", "c01::history(2, 2, 2)", 8)
+    add("C01", "c01_history_popcols_3x1", "c01::history(2, 3, 1)", 8, "thorough")
+    add("C01", "c01_base", "c01::base()", 4, also=["C20"])
+
+
+c01()
+
+
+# ---------------------------------------------------------------------------------------
+# C15 translate / flips (stub: rotate_left)
+def c15():
+    owned_q = {(3, 3): [0, 1, 2, 3], (2, 3): [1, 2], (4, 2): [1], (1, 1): [0, 1], (3, 1): [0]}
+    for c in range(1, 5):
+        for r in range(1, 5):
+            for mr in range(0, r + 1):
+                q = "quick" if mr in owned_q.get((c, r), []) else "thorough"
+                add("C15", f"c15_translate_owned_{c}x{r}_mr{mr}", f"c15::translate(0, {c}, {r}, 0, 0, {c}, {r}, {mr})", max(c, r) + 3, q,
+                    stubs=[ROTATE_STUB], also=["C01"] if q == "quick" and (c, r) == (3, 3) and mr == 1 else [])
+    wins = {"interior2x2": (1, 1, 3, 3), "right2x3": (2, 1, 4, 4), "top4x1": (0, 0, 4, 1), "col1x4": (1, 0, 2, 4), "bottomleft3x2": (0, 2, 3, 4)}
+    for nm, (sc, sr, ec, er) in wins.items():
+        h = er - sr
+        for mr in range(0, h + 1):
+            q = "quick" if (nm == "interior2x2" and mr == 1) or (nm == "right2x3" and mr in (1, 2)) or (nm == "top4x1" and mr == 0) else "thorough"
+            add("C15", f"c15_translate_view_{nm}_mr{mr}", f"c15::translate(1, 4, 4, {sc}, {sr}, {ec}, {er}, {mr})", 7, q, stubs=[ROTATE_STUB], also=["C04"] if q == "quick" else [])
+    add("C15", "c15_translate_mini_interior2x2_mr1", "c15::translate(2, 4, 4, 1, 1, 3, 3, 1)", 7, "thorough", stubs=[ROTATE_STUB])
+    add("C15", "c15_translate_rejected_owned_2x3", "c15::translate_rejected(0, 2, 3)", 7, kind="panic", stubs=[ROTATE_STUB])
+    add("C15", "c15_translate_rejected_owned_0x0", "c15::translate_rejected(0, 0, 0)", 7, "thorough", kind="panic", stubs=[ROTATE_STUB])
+    add("C15", "c15_translate_rejected_view_4x4", "c15::translate_rejected(1, 4, 4)", 7, kind="panic", stubs=[ROTATE_STUB])
+    for rows in (True, False):
+        nm = "flip_rows" if rows else "flip_cols"
+        for (c, r) in [(3, 3), (2, 3), (3, 2), (1, 1), (4, 4), (0, 0)]:
+            add("C15", f"c15_{nm}_owned_{c}x{r}", f"c15::flip({b(rows)}, 0, {c}, {r}, 0, {c})", 7, "quick" if (c, r) in [(3, 3), (2, 3)] else "thorough")
+        for (sc, ec) in [(1, 3), (0, 4), (3, 4), (2, 2)]:
+            add("C15", f"c15_{nm}_view_c{sc}_{ec}", f"c15::flip({b(rows)}, 1, 4, 4, {sc}, {ec})", 7, "quick" if (sc, ec) in [(1, 3), (0, 4)] else "thorough", also=["C04"] if (sc, ec) == (1, 3) else [])
+
+
+c15()
+
+
+# ---------------------------------------------------------------------------------------
+# C16 / C17 sorts (stub for the unstable entry points: adversarial contract model)
+SORT_STUB = ("core::slice::sort::unstable::sort", "crate::c16::unstable_sort_contract")
+ROW_ENTRIES = {0: "sort_by_row", 1: "sort_unstable_by_row", 2: "sort_by_row_key", 3: "sort_unstable_by_row_key", 4: "sort_row_ord", 5: "sort_unstable_row_ord"}
+COL_ENTRIES = {6: "sort_by_col", 7: "sort_unstable_by_col", 8: "sort_by_col_key", 9: "sort_unstable_by_col_key", 10: "sort_col_ord"}
+
+
+def sorts(prop, entries, by_row):
+    for e, nm in entries.items():
+        stubs = [SORT_STUB] if e in (1, 3, 5, 7, 9) else []
+        # owned shapes: the sorted dimension has n lines (columns for a row sort)
+        shapes = [(3, 2), (2, 3), (3, 3), (4, 2), (2, 4), (1, 1), (3, 1), (1, 3)]
+        for (c, r) in shapes:
+            nlines = r if by_row else c
+            for line in range(nlines):
+                if by_row:
+                    quick = ((c, r) == (3, 2) and line == 1) or ((c, r) == (2, 3) and line == 2 and e in (0, 1))
+                else:
+                    quick = ((c, r) == (2, 3) and line == 1) or ((c, r) == (3, 2) and line == 2 and e in (6, 7))
+                add(prop, f"{prop.lower()}_{nm}_owned_{c}x{r}_l{line}", f"c16::sort({e}, 0, {c}, {r}, 0, 0, {c}, {r}, {line})", 7, "quick" if quick else "thorough",
+                    stubs=stubs, also=["C01"] if quick and e in (0, 6) else [])
+        wins = {"interior3x2": (1, 1, 4, 3), "interior2x3": (1, 0, 3, 3), "interior2x2": (1, 1, 3, 3)}
+        for wn, (sc, sr, ec, er) in wins.items():
+            nlines = (er - sr) if by_row else (ec - sc)
+            for line in range(nlines):
+                quick = (wn == ("interior3x2" if by_row else "interior2x3")) and line == 1 and e in (0, 1, 6, 7, 8)
+                add(prop, f"{prop.lower()}_{nm}_view_{wn}_l{line}", f"c16::sort({e}, 1, 4, 4, {sc}, {sr}, {ec}, {er}, {line})", 7, "quick" if quick else "thorough",
+                    stubs=stubs, also=["C04"] if quick else [])
+        add(prop, f"{prop.lower()}_{nm}_rejected_owned_2x3", f"c16::sort_rejected({e}, 0, 2, 3)", 7, "quick" if e in (0, 1, 2, 6, 8, 9, 10) else "thorough", kind="panic", stubs=stubs)
+        add(prop, f"{prop.lower()}_{nm}_rejected_view_4x4", f"c16::sort_rejected({e}, 1, 4, 4)", 7, "thorough", kind="panic", stubs=stubs)
+        add(prop, f"{prop.lower()}_{nm}_rejected_mini_4x4", f"c16::sort_rejected({e}, 2, 4, 4)", 7, "thorough", kind="panic", stubs=stubs)
+
+
+sorts("C16", ROW_ENTRIES, True)
+sorts("C17", COL_ENTRIES, False)
+
+
+# ---------------------------------------------------------------------------------------
+# C14 copies
+def c14():
+    ops = {0: "copy_from_slice", 1: "clone_from_slice", 2: "copy_from_owned", 3: "clone_from_owned", 4: "copy_from_view", 5: "clone_from_view"}
+    for op, nm in ops.items():
+        for (c, r) in [(2, 3), (3, 2), (0, 0), (1, 1), (4, 4)]:
+            if op >= 4 and (c, r) == (4, 4):
+                pass
+            q = "quick" if (c, r) in [(2, 3), (0, 0)] else "thorough"
+            add("C14", f"c14_{nm}_owned_{c}x{r}", f"c14::bulk({op}, 0, {c}, {r}, 0, {c}, false)", 7, q, also=["C01"] if q == "quick" and op in (0, 2) else [])
+        for (sc, ec) in [(1, 3), (0, 4), (2, 2), (3, 4)]:
+            q = "quick" if (sc, ec) in [(1, 3), (2, 2)] or ((sc, ec) == (0, 4) and op in (0, 4)) else "thorough"
+            add("C14", f"c14_{nm}_view_c{sc}_{ec}", f"c14::bulk({op}, 1, 4, 4, {sc}, {ec}, false)", 7, q, also=["C04"] if (sc, ec) == (1, 3) else [])
+        add("C14", f"c14_{nm}_mismatch_owned_2x3", f"c14::bulk({op}, 0, 2, 3, 0, 2, true)", 7, "quick" if op in (0, 1, 2, 4) else "thorough", kind="panic")
+        add("C14", f"c14_{nm}_mismatch_owned_0x0", f"c14::bulk({op}, 0, 0, 0, 0, 0, true)", 7, "thorough", kind="panic")
+        add("C14", f"c14_{nm}_mismatch_view_c1_3", f"c14::bulk({op}, 1, 4, 4, 1, 3, true)", 7, "quick" if op in (0, 3, 5) else "thorough", kind="panic")
+    for order, on in ((0, "down"), (1, "level"), (2, "up")):
+        for height in (0, 1, 2, 3):
+            q = "quick" if height in (1, 2) else "thorough"
+            add("C14", f"c14_copy_within_owned_3x3_{on}_h{height}", f"c14::copy_within(0, 3, 3, 0, 0, 3, 3, {order}, {height}, false)", 7, q)
+            add("C14", f"c14_copy_within_view_3x3_{on}_h{height}", f"c14::copy_within(1, 4, 4, 1, 1, 4, 4, {order}, {height}, false)", 7,
+                "quick" if height == 2 else "thorough", also=["C04"] if height == 2 else [])
+            add("C14", f"c14_copy_within_owned_4x4_{on}_h{height}", f"c14::copy_within(0, 4, 4, 0, 0, 4, 4, {order}, {height}, false)", 7, "thorough")
+            add("C14", f"c14_copy_within_owned_2x4_{on}_h{height}", f"c14::copy_within(0, 2, 4, 0, 0, 2, 4, {order}, {height}, false)", 7, "thorough")
+    add("C14", "c14_copy_within_rejected_owned_3x3", "c14::copy_within(0, 3, 3, 0, 0, 3, 3, 0, 0, true)", 7, kind="panic")
+    add("C14", "c14_copy_within_rejected_view_3x3", "c14::copy_within(1, 4, 4, 1, 1, 4, 4, 0, 0, true)", 7, kind="panic")
+    add("C14", "c14_copy_within_rejected_owned_0x0", "c14::copy_within(0, 0, 0, 0, 0, 0, 0, 0, 0, true)", 7, "thorough", kind="panic")
+
+
+c14()
+
+
+# ---------------------------------------------------------------------------------------
+# C18 / C19 serde (data-model driver)
+def c18():
+    for (c, r) in [(0, 0), (2, 3), (1, 3), (3, 1), (3, 3), (1, 1)]:
+        q = "quick" if (c, r) in [(0, 0), (2, 3), (3, 1)] else "thorough"
+        add("C18", f"c18_roundtrip_u8_{c}x{r}", f"c18::roundtrip_u8({c}, {r})", 12, q)
+        add("C18", f"c18_roundtrip_u32_{c}x{r}", f"c18::roundtrip_u32({c}, {r})", 12, "quick" if (c, r) in [(2, 3), (0, 0)] else "thorough")
+    for (c, r) in [(3, 3), (2, 3), (1, 1)]:
+        q = "quick" if (c, r) == (3, 3) else "thorough"
+        add("C18", f"c18_roundtrip_view_{c}x{r}", f"c18::roundtrip_view({c}, {r}, false)", 12, q)
+        add("C18", f"c18_roundtrip_viewmut_{c}x{r}", f"c18::roundtrip_view({c}, {r}, true)", 12, q)
+
+
+c18()
+
+
+def c19():
+    # key patterns, least significant digit first: 0 num_cols, 1 num_rows, 2 data, 3 unknown
+    pats = {
+        "crd": (210, 3), "drc": (12, 3), "rdc": (21, 3), "cdr": (120, 3), "dcr": (102, 3), "rcd": (201, 3),
+        "cr": (10, 2), "cd": (20, 2), "rd": (21, 2), "c": (0, 1), "d": (2, 1), "empty": (0, 0),
+        "crdd": (2210, 4), "ccrd": (2100, 4), "crrd": (2110, 4), "crdu": (3210, 4), "ucrd": (2103, 4), "crud": (2310, 4), "dcrd": (2102, 4),
+    }
+    quick = {"crd", "drc", "cr", "rd", "crdd", "crdu", "empty", "ccrd"}
+    for nm, (p, ln) in pats.items():
+        for free_cols in (True, False):
+            q = "quick" if nm in quick and (free_cols or nm in ("crd", "drc")) else "thorough"
+            add("C19", f"c19_doc_{nm}_{'fc' if free_cols else 'fr'}", f"c19::document({p}, {ln}, {b(free_cols)})", 12, q)
+
+
+c19()
+
+
+# ---------------------------------------------------------------------------------------
+# C20 constructors / conversions
+def c20():
+    cn = {0: "new", 1: "init", 2: "from_vec", 3: "from_box", 4: "view_new", 5: "viewmut_new"}
+    for ctor, nm in cn.items():
+        add("C20", f"c20_rejected_{nm}", f"c20::rejected({ctor})", 10, kind="panic", also=["C01"] if ctor < 4 else [])
+    for ctor in (0, 1, 2, 3):
+        for (c, r) in [(0, 0), (2, 3), (3, 2), (1, 1), (3, 3), (1, 4)]:
+            q = "quick" if (c, r) in [(0, 0), (2, 3)] else "thorough"
+            add("C20", f"c20_contents_{cn[ctor]}_{c}x{r}", f"c20::contents({ctor}, {c}, {r})", 18, q, also=["C01"] if q == "quick" else [])
+    vn = {0: "into_vec", 1: "into_box", 2: "into_iter", 3: "clone", 4: "from_view", 5: "from_viewmut"}
+    for conv, nm in vn.items():
+        for (c, r) in [(2, 3), (0, 0), (3, 3), (1, 1)]:
+            q = "quick" if (c, r) == (2, 3) or ((c, r) == (0, 0) and conv in (0, 3, 4)) else "thorough"
+            add("C20", f"c20_{nm}_{c}x{r}", f"c20::conversions({conv}, {c}, {r})", 18, q)
+    for (a, bb) in [((2, 2), (2, 2)), ((1, 4), (4, 1)), ((2, 2), (1, 4)), ((0, 0), (0, 0)), ((2, 3), (2, 3)), ((2, 3), (3, 2)), ((1, 1), (0, 0))]:
+        q = "quick" if (a, bb) in [((2, 2), (2, 2)), ((1, 4), (4, 1)), ((0, 0), (0, 0)), ((2, 2), (1, 4))] else "thorough"
+        add("C20", f"c20_eq_hash_{a[0]}x{a[1]}_{bb[0]}x{bb[1]}", f"c20::eq_hash({a[0]}, {a[1]}, {bb[0]}, {bb[1]})", 40, q)
+    # the view constructors' contents are C03's over_slice harnesses
+    for h in list(CATALOG):
+        if h.name.startswith("c03_over_") and h.tier == "quick":
+            h.also.append("C20")
+
+
+c20()
 
 
 def select(prop, tier):
